@@ -72,12 +72,15 @@ def run(ctx):
             continue
         last, last_model, last_frames, last_sig = None, None, None, None
         k = 0
+        seen_unknown = False
         for kind, cmd, frames, sig, ans in res:
             if kind == "check-sat":
                 last = ans
                 last_model = None
                 k += 1
                 ctx.count("answer:%s" % (ans if isinstance(ans, str) else "other"))
+                if ans == "unknown":
+                    seen_unknown = True
                 continue
             if last != "sat":
                 continue
@@ -110,7 +113,7 @@ def run(ctx):
                     j = bad[0]
                     import re as _re
                     big = any(int(x) > 2**53 for x in _re.findall(r"[0-9]{16,}", sx_str(A))) if True else False
-                    ctx.violation("get-model:assertion-%s:%s%s" % ("false" if ev["asserts"][j] == "F" else "undefined", logic, ":const>2^53" if big else ""),
+                    ctx.violation("get-model:assertion-%s:%s%s" % ("false" if ev["asserts"][j] == "F" else "undefined", logic, (":const>2^53" if big else "") + (":after-unknown" if seen_unknown else "")),
                                   "assertion %s evaluates to %s under the printed model (verified evaluator)" % (sx_str(A[j]), ev["asserts"][j]),
                                   dict(script=text, check_index=k, assertion=sx_str(A[j]), model=sx_str(ans), stdout=out))
             elif kind == "get-value" and last_model is not None:
